@@ -282,3 +282,46 @@ def r7(ctx):
     # shared with R-C02-5: over-reading is invisible to a blocking recv() but changes what a segmentation delivers when
     from .c02 import r5 as exact_consumption
     exact_consumption(ctx)
+
+
+@rule("R-C03-8", min_instances=2, title="a would-block on a non-blocking transport is not a lost connection; TLS-buffered data is looked at before blocking")
+def r8(ctx):
+    idx = ctx.index
+
+    def mr(name, node, run):
+        if name == "sock.recv":
+            return [("builtins.BlockingIOError", (C(11), C("Resource temporarily unavailable")))]
+        return []
+
+    stubs = dict(BASE_STUBS)
+    stubs["sock.gettimeout"] = lambda I, run, a, k, n: C(0)
+    I = Interp(idx, Config(stubs=stubs, may_raise=mr))
+    q = "_socket:recv"
+    outs = ctx.count_paths(I.explore(lambda run: I.call(run, I.make_fn(run, q), [Sym("sock", "obj"), C(10)], {}, None)))
+    n = 0
+    bad = None
+    for o in outs:
+        if not any("@raised" in e.kwargs for e in o.effects):
+            continue
+        n += 1
+        if not (o.kind == "raise" and not exc_is(I, o, CLOSED_EXC)):
+            bad = bad or o
+    if n == 0:
+        raise AnalysisError("would-block case not explored")
+    ctx.ob(f"{q}:non-blocking-would-block", bad is None,
+           f"{n} paths: EAGAIN on a non-blocking socket propagates as the transport's own error" if bad is None else
+           f"on a non-blocking transport (timeout 0) 'no data yet' ends as {bad.kind} {bad.exc_class or bad.value!r}: reported as a lost connection, the connection is then torn down",
+           idx.loc(idx.func(q).node), {"path": path_text(bad)} if bad else None)
+    from .c13 import _disp_paths
+    I2, outs2 = _disp_paths(ctx, "_dispatcher:SSLDispatcher")
+    badp = None
+    for o in outs2:
+        names = [e.name for e in o.effects]
+        for i, nm in enumerate(names):
+            if nm == "sel.select":
+                prev = [x for x in names[:i] if x in ("pending", "sel.select", "read_callback", "check_callback")]
+                if not prev or prev[-1] != "pending":
+                    badp = badp or o
+    ctx.ob("_dispatcher:SSLDispatcher.select:pending-before-blocking", badp is None,
+           "sock.pending() is consulted before every blocking select" if badp is None else
+           "frames already decrypted into the TLS buffer (same segment as the previous frame or as the handshake response) are not delivered until more bytes arrive", "")
